@@ -59,7 +59,7 @@ func (c *Ctx) startDerivation(v ssa.Value, out map[string]bool, seen map[ssa.Val
 		c.startDerivation(x.Tuple, out, seen, d+1)
 	case *ssa.Call:
 		name := calleeFullName(&x.Call)
-		if cal := x.Call.StaticCallee(); cal != nil && c.InModule(cal) && cal.Blocks != nil {
+		if cal := calleeOf(&x.Call); cal != nil && c.InModule(cal) && cal.Blocks != nil {
 			// a module helper: what it returns
 			for _, r := range returnsOf(cal) {
 				if len(r.Results) > 0 {
